@@ -192,6 +192,28 @@ def run(seed=0, rounds=3):
         x3 = rt((A, Bd, C))
         F_ = [(x, "float")]
         structural("add", lambda I, a, c: a._bin(I, ast.Add(), c, False), lambda a, c: a + c, [(x, "float"), (y, "float")])
+        # alternative spellings (method / function forms, None in an index)
+        b2 = rt((A, Bd), "bool")
+        structural(".neg", lambda I, a: M["neg"](I, a), lambda a: a.neg(), [(xi, "long")])
+        structural("torch.neg", lambda I, a: F["torch.neg"](I, a), lambda a: torch.neg(a), F_)
+        structural(".logical_not", lambda I, a: M["logical_not"](I, a), lambda a: a.logical_not(), [(b, "bool")])
+        structural(".logical_and", lambda I, a, c: M["logical_and"](I, a, c), lambda a, c: a.logical_and(c), [(b, "bool"), (b2, "bool")])
+        structural("torch.logical_or", lambda I, a, c: F["torch.logical_or"](I, a, c), lambda a, c: torch.logical_or(a, c), [(b, "bool"), (b2, "bool")])
+        structural(".where", lambda I, a, c, d: M["where"](I, a, c, d), lambda a, c, d: a.where(c, d), [(x, "float"), (b, "bool"), (y, "float")])
+        structural("torch.minimum", lambda I, a, c: F["torch.minimum"](I, a, c), lambda a, c: torch.minimum(a, c), [(x, "float"), (y, "float")])
+        structural("torch.maximum", lambda I, a, c: F["torch.maximum"](I, a, c), lambda a, c: torch.maximum(a, c), [(xi, "long"), (rt((A, Bd), "long"), "long")])
+        structural("torch.eq", lambda I, a, c: F["torch.eq"](I, a, c), lambda a, c: torch.eq(a, c), [(xi, "long"), (rt((A, Bd), "long"), "long")])
+        structural("torch.lt scalar", lambda I, a: F["torch.lt"](I, a, 1), lambda a: torch.lt(a, 1), [(xi, "long")])
+        structural("torch.sub", lambda I, a, c: F["torch.sub"](I, a, c), lambda a, c: torch.sub(a, c), [(x, "float"), (y, "float")])
+        structural("torch.unsqueeze", lambda I, a: F["torch.unsqueeze"](I, a, 1), lambda a: torch.unsqueeze(a, 1), F_)
+        structural("x[:, None]", lambda I, a: a.__vc_getitem__(I, (slice(None), None)), lambda a: a[:, None], F_)
+        structural("x[None]", lambda I, a: a.__vc_getitem__(I, None), lambda a: a[None], F_)
+        structural("x[..., None]", lambda I, a: a.__vc_getitem__(I, (Ellipsis, None)), lambda a: a[..., None], [(x3, "float")])
+        structural("x[None, :, None]", lambda I, a: a.__vc_getitem__(I, (None, slice(None), None)), lambda a: a[None, :, None], F_)
+        structural("x[1, None]", lambda I, a: a.__vc_getitem__(I, (A - 1, None)), lambda a: a[A - 1, None], F_)
+        structural("x[:, None, 0]", lambda I, a: a.__vc_getitem__(I, (slice(None), None, 0)), lambda a: a[:, None, 0], [(x3, "float")])
+        structural("torch.masked_fill", lambda I, a, c: F["torch.masked_fill"](I, a, c, 2.0), lambda a, c: torch.masked_fill(a, c, 2.0), [(x, "float"), (b, "bool")])
+        structural("torch.clamp_min", lambda I, a: F["torch.clamp_min"](I, a, 0), lambda a: torch.clamp_min(a, 0), [(xi, "long")])
         structural("sub scalar", lambda I, a: a._bin(I, ast.Sub(), 2, False), lambda a: a - 2, F_)
         structural("mul", lambda I, a, c: a._bin(I, ast.Mult(), c, False), lambda a, c: a * c, [(x, "float"), (y, "float")])
         structural("long mod", lambda I, a: a._bin(I, ast.Mod(), 3, False), lambda a: a % 3, [(xi, "long")])
